@@ -109,9 +109,19 @@ def c_hash(tbl):
     return "(hash_of %s)" % c_list("(%s,%d)" % (c_skey(k), h) for k, h in tbl)
 
 
-def model_expr(case, hashes, fn="run_dump"):
-    return "%s %s %s (actor_init %d) %s" % (fn, c_cfg(case["cfg"]), c_hash(hashes), case["cfg"]["t0"],
-                                             c_list(c_op(o) for o in case["ops"]))
+def model_expr(case, hashes, fn="run_dump", steps=None):
+    """[steps]: the implementation's results; needed only when the case has a small per-round budget
+    (cfg n < 10000): the model's budgeted time check takes the iteration order of service_map, which is
+    read from the state dumped before the tick"""
+    n = case["cfg"].get("n", 10000)
+    ops = []
+    for ix, o in enumerate(case["ops"]):
+        if o[0] == "check" and n < 10000:
+            order = steps[ix - 1]["st"]["order"] if (steps and ix > 0) else []
+            ops.append("OpTimeCheckB %d %s" % (n, c_list(c_skey(k) for k in order)))
+        else:
+            ops.append(c_op(o))
+    return "%s %s %s (actor_init %d) %s" % (fn, c_cfg(case["cfg"]), c_hash(hashes), case["cfg"]["t0"], c_list(ops))
 
 
 # ------------------------------------------------------------------ canonical forms
@@ -163,6 +173,7 @@ def canon_model_state(d):
 
 def canon_impl_state(st):
     s = json.loads(json.dumps(st))
+    s.pop("order", None)
     for sv in s["services"]:
         sv["hset"] = sorted(sv["hset"])
         sv["uset"] = sorted(sv["uset"])
